@@ -160,6 +160,12 @@ Faults ==
                  [b EXCEPT !.steps = << [b.steps[1] EXCEPT !.rules = << [@[1] EXCEPT !.when = <<IsCmd(35), Eq(Slice(Plain, 10, 11), B(<<5>>))>>,
                                                                                      !.ifstate = <<St("f", 0)>>, !.effects = <<Inc("n"), Set("f", 1)>>] >> \o Tail(@)],
                                            b.steps[2] >>] }
+          \* a modification that keeps the reservation, and then the closing Get SDR Repository Info fails once: the walk
+          \* cannot have been validated, so it is repeated
+          \cup { LET post == Repo(bb[1] * 10 + bb[2] + 500 + Seed, bb[1], TRUE)
+                     b == Script("modkeep-then-info-fault-" \o ToString(k) \o "-" \o kind, pre, post, [kind |-> "modify", at |-> k, strict |-> TRUE, stamp |-> "erase", keep |-> TRUE]) IN
+                 [b EXCEPT !.steps = << [b.steps[1] EXCEPT !.rules = << FaultRule(32, "i", 1, kind) >> \o @, !.state = @ @@ [f |-> 0, r |-> 0]], b.steps[2] >>]
+                 : k \in {1, 2, WalkReqs(pre)}, kind \in {"cc", "lost"} }
           \cup { FaultScript("fault-info-" \o ToString(bb[1]) \o "-" \o ToString(i) \o "-" \o kind, pre, 32, "i", i, kind) : i \in 0..1, kind \in {"cc", "lost", "short"} }
           \cup { FaultScript("fault-resv-" \o ToString(bb[1]) \o "-" \o kind, pre, 34, "r", 0, kind) : kind \in {"cc", "lost", "short"} }
           : bb \in (IF Full THEN {<<3, 1>>, <<5, 2>>, <<2, 3>>} ELSE {<<3, 1>>}) }
